@@ -43,8 +43,11 @@ static const char *const fmts[] = {
 	"l [%-*lx] %lu\n",
 	"z [%0*lx]\n",
 	"%s",
+	/* a literal percent sign in front of the conversions */
+	"load %lu%% on %s, %lu errors|\n",
+	"100%% %s%%%lu\n",
 };
-#define NFMT 13
+#define NFMT 15
 static const char *const strs[] = { "alpha", "", "a somewhat longer string argument", "%d" };
 /* string arguments of every length 0..99, so formatted lines cluster around 60-100 characters */
 static const char longstr[] = "0123456789abcdefghijklmnopqrstuvwxyzABCDEFGHIJKLMNOPQRSTUVWXYZ0123456789abcdefghijklmnopqrstuvwxyz-+";
@@ -101,6 +104,8 @@ static void gen_entry(ent_t *e)
 	case 10: e->a[0] = sim_choose(13); e->a[1] = total; e->a[2] = sim_choose(1000); break;
 	case 11: e->a[0] = sim_choose(13); e->a[1] = total * 977; break;
 	case 12: e->a[0] = sim_choose(2) ? (uintptr_t)strs[1] : (uintptr_t)strs[sim_choose(4)]; break;
+	case 13: e->a[0] = sim_choose(101); e->a[1] = (uintptr_t)strs[sim_choose(4)]; e->a[2] = sim_choose(3) ? 0 : total; break;
+	case 14: e->a[0] = (uintptr_t)strs[sim_choose(4)]; e->a[1] = sim_choose(2) ? 0 : total; break;
 	}
 }
 
@@ -287,10 +292,9 @@ static void jump_counter(void)
 	sim_ev("jump", t, 0, 0);
 }
 
-static void brute_force(void)
+static void brute_force(uint64_t target)
 {
-	/* really log up to just below the fold point, then check the state shortcut */
-	const uint64_t target = 0x7fffffffull - 1 - 150;
+	/* really log up to just below the fold point (or 2^32), then check the state shortcut */
 	ent_t e = { 0 };
 	sim_budget(~0ull >> 2);
 	while (n_since_clear < target) {
@@ -328,7 +332,9 @@ static void run(void)
 {
 	n_since_clear = 0;
 	total = 0;
-	bool brute = sim_thorough() && sim_run_index() == 0;
+	/* thorough tier: run 0 really logs up to the 2^31 fold point, run 1 up to 2^32 (where a
+	 * 32-bit message count would wrap); both then continue with an ordinary history across it */
+	bool brute = sim_thorough() && sim_run_index() <= 1;
 	uint32_t nops = 3 + sim_choose(48);
 	/* steer the message count: burst sizes come from this menu */
 	static const uint16_t bursts[] = { 1, 2, 3, 254, 255, 256, 257, 258, 511, 512, 513, 40, 700 };
@@ -339,7 +345,7 @@ static void run(void)
 	sim_ev("hdr", nops, faults_on, brute);
 
 	if (brute)
-		brute_force();
+		brute_force(sim_run_index() == 0 ? 0x7fffffffull - 1 - 150 : 0x100000000ull - 150);
 
 	uint64_t before_fold;
 	for (uint32_t step = 0; step < nops && !sim_tape_done(); step++) {
